@@ -38,10 +38,10 @@ REACH = [
     "insights/core/spec_factory.py::ContentProvider._clean_content",
 ]
 PLAN = {
-    "quick": {"shards": 8, "cases": 2000, "timeout_s": 900, "min_evaluations": 12000,
-              "min_counters": {"lines_cleaned": 40000, "ip_tokens_checked": 8000, "mac_tokens_checked": 2500, "host_tokens_checked": 6000,
-                               "keyword_tokens_checked": 2000, "password_secrets_checked": 3000, "pattern_lines_checked": 2000,
-                               "survivor_lines": 15000}},
+    "quick": {"shards": 8, "cases": 8000, "timeout_s": 900, "min_evaluations": 48000,
+              "min_counters": {"lines_cleaned": 160000, "ip_tokens_checked": 32000, "mac_tokens_checked": 10000, "host_tokens_checked": 24000,
+                               "keyword_tokens_checked": 8000, "password_secrets_checked": 12000, "pattern_lines_checked": 8000,
+                               "survivor_lines": 60000}},
     "thorough": {"shards": 16, "cases": 12000, "timeout_s": 3300, "min_evaluations": 150000,
                  "min_counters": {"lines_cleaned": 1000000}},
 }
